@@ -1,7 +1,6 @@
 package main
 
 import (
-	"sync/atomic"
 	"context"
 	"encoding/binary"
 	"errors"
@@ -10,6 +9,7 @@ import (
 	"net"
 	"strings"
 	"sync"
+	"sync/atomic"
 	"time"
 
 	"github.com/smallnest/rpcx/protocol"
@@ -34,7 +34,9 @@ type sdGate struct {
 	release chan struct{}
 }
 
-func newSdGate() *sdGate { return &sdGate{arrived: make(chan struct{}, 1), release: make(chan struct{})} }
+func newSdGate() *sdGate {
+	return &sdGate{arrived: make(chan struct{}, 1), release: make(chan struct{})}
+}
 
 var sdMu sync.Mutex
 var sdHookGates = map[uint64]*sdGate{}  // by request seq: parked before the in-progress count is incremented
@@ -547,6 +549,7 @@ func runC16(o *Out, r *rand.Rand) {
 		go func(pool bool) {
 			defer wg2.Done()
 			c16CloseDuringShutdown(o, pool)
+			c16ShutdownDuringShutdown(o, pool)
 		}(i%2 == 0)
 	}
 	wg2.Wait()
@@ -619,6 +622,102 @@ func c16CloseDuringShutdown(o *Out, pool bool) {
 	mu.Unlock()
 	o.Eval(fmt.Sprintf("close-during-shutdown pool=%v", pool), true)
 	o.Count("close-during-shutdown")
+}
+
+// c16ShutdownDuringShutdown: a second Shutdown is called while the first one is still waiting for a
+// request that was read before it began.  The second call must not disturb the drain: the request
+// runs to completion and its response reaches the peer before the connection is closed.
+func c16ShutdownDuringShutdown(o *Out, pool bool) {
+	rig, err := newSdRig(pool)
+	if err != nil {
+		o.Violate("srv.rig", "cannot start: "+err.Error(), nil)
+		return
+	}
+	rp := map[string]any{"scenario": "Shutdown waits for a running request; a second Shutdown is called meanwhile (and returns); then the request finishes", "pool": pool}
+	id := nextSdID()
+	gate, started := rig.gate(id)
+	p, err := dialRaw(rig.addr)
+	if err != nil {
+		o.Violate("srv.rig", "cannot connect: "+err.Error(), nil)
+		return
+	}
+	defer p.c.Close()
+	p.send(rawReq{id: id, seq: uint64(id), path: "Svc", method: "Do", ser: protocol.JSON, args: &SArgs{ID: id, Mode: "ok"}})
+	select {
+	case <-started:
+	case <-time.After(2 * time.Second):
+		o.Violate("srv.rig", "handler did not start", nil)
+		return
+	}
+	var viol []Violation
+	var mu sync.Mutex
+	var firstErr error
+	firstDone, secondDone := make(chan struct{}), make(chan struct{})
+	go func() {
+		var v []Violation
+		ctx, cancel := context.WithTimeout(context.Background(), 8*time.Second)
+		defer cancel()
+		safely("Shutdown (first)", &v, rp, func() { firstErr = rig.s.Shutdown(ctx) })
+		mu.Lock()
+		viol = append(viol, v...)
+		mu.Unlock()
+		close(firstDone)
+	}()
+	time.Sleep(60 * time.Millisecond)
+	go func() {
+		var v []Violation
+		ctx, cancel := context.WithTimeout(context.Background(), 8*time.Second)
+		defer cancel()
+		safely("Shutdown (second, during the first)", &v, rp, func() { rig.s.Shutdown(ctx) })
+		mu.Lock()
+		viol = append(viol, v...)
+		mu.Unlock()
+		close(secondDone)
+	}()
+	// give the second call time to do whatever it does, then let the request finish
+	select {
+	case <-secondDone:
+	case <-time.After(150 * time.Millisecond):
+	}
+	firstReturnedEarly := false
+	select {
+	case <-firstDone:
+		firstReturnedEarly = true
+	default:
+	}
+	close(gate)
+	msgs, _ := p.readAll(1, 2*time.Second)
+	for name, ch := range map[string]chan struct{}{"the first Shutdown": firstDone, "the second Shutdown": secondDone} {
+		select {
+		case <-ch:
+		case <-time.After(9 * time.Second):
+			o.Violate("c16.shutdown-twice-hangs", name+" did not return when two Shutdown calls overlapped", rp)
+		}
+	}
+	select {
+	case <-rig.serveRet:
+	case <-time.After(3 * time.Second):
+		o.Violate("c16.serve-did-not-return", "the serve loop did not return after two overlapping Shutdown calls", rp)
+	}
+	mu.Lock()
+	for _, v := range viol {
+		o.Violate(v.Kind, v.Detail, v.Replay)
+	}
+	mu.Unlock()
+	got := false
+	for _, m := range msgs {
+		if m.Seq() == uint64(id) && m.MessageStatusType() != protocol.Error {
+			got = true
+		}
+	}
+	rp["first_shutdown_returned"] = fmt.Sprint(firstErr)
+	if firstReturnedEarly {
+		o.Violate("c16.shutdown-twice.drain-abandoned", "the first Shutdown returned while the request it was waiting for was still running (a second Shutdown had been called meanwhile)", rp)
+	} else if !got && firstErr == nil {
+		o.Violate("c16.shutdown-twice.lost-response", "a second Shutdown called while the first was draining cost the in-flight request its response: the peer received nothing although Shutdown returned nil", rp)
+	}
+	o.Eval(fmt.Sprintf("shutdown-during-shutdown pool=%v", pool), true)
+	o.Count("shutdown-during-shutdown")
 }
 
 func c16Storm(o *Out, pool bool) {
